@@ -8,9 +8,35 @@ import warnings
 warnings.simplefilter("ignore")
 
 
+def start_linecov(pkg):
+    """which source lines of PyXAB did this shard's executions reach?  sys.monitoring LINE events, each location
+    reported once (DISABLE after the first hit), so the cost is negligible"""
+    mon = getattr(sys, "monitoring", None)
+    hits = set()
+    if mon is None:
+        return hits
+    try:
+        tid = mon.COVERAGE_ID
+        mon.use_tool_id(tid, "pyxabmon-lines")
+    except Exception:
+        return hits
+    n = len(pkg) + 1
+
+    def cb(code, line):
+        f = code.co_filename
+        if f.startswith(pkg):
+            hits.add((f[n:], line))
+        return mon.DISABLE
+
+    mon.register_callback(tid, mon.events.LINE, cb)
+    mon.set_events(tid, mon.events.LINE)
+    return hits
+
+
 def main():
     prop, fin, fout = sys.argv[1:4]
     from . import common as C
+    hits = start_linecov(C.PKG)
     from .runner import load_prop
     import numpy as np
     np.seterr(all="ignore")
@@ -27,6 +53,8 @@ def main():
             r["_secs"] = round(time.time() - t0, 2)
             out.write(json.dumps(C.jsonable(r)) + "\n")
             out.flush()
+            with open(fout + ".cov", "w") as f:
+                json.dump(sorted(hits), f)
 
 
 if __name__ == "__main__":
